@@ -194,7 +194,8 @@ class C10Monitor(Monitor):
             self.skip_same_all_levels(tree, mx)
 
     def mk(self, problem, fits, offset=0.0):
-        return [Individual(np.array([1000.0 + 7.0 * i + offset, -3.0 * i]), problem, float(f)) for i, f in enumerate(fits)]
+        d = len(problem.bounds)
+        return [Individual(np.array([1000.0 + 7.0 * i + offset, -3.0 * i, 0.5, 0.25, -1.0, 2.0][:d] if d != 1 else [1000.0 + 7.0 * i + offset]), problem, float(f)) for i, f in enumerate(fits)]
 
     def enumerate_filters(self, tree, plevel, parents, act, mx):
         x = self.x
